@@ -4,7 +4,9 @@
   models of TE/Model/Curve.lean; `spec.*` oracles evaluate TE/Spec/Curve.lean.
   The classes are cache-all: they run the typed class objects of TE/Model/FamsCache.lean
   (state: the list of cached samples plus a "was updated" flag — `BinaryAUROC.compute`
-  distinguishes "never updated" from "no samples").
+  distinguishes "never updated" from "no samples"); the multiclass / multilabel / 1-D binary
+  functionals run the same objects' `fn = stat >=> out`, the `(num_tasks, n)` binary functionals
+  call the row form the typed `fn` is proved equal to (`FamCache.binaryAurocC_fn_eq`).
 -/
 import TE.Driver.Fam
 import TE.Model.Curve
@@ -126,7 +128,7 @@ def fnMulticlassAuroc (a : Args) : Except Err String := do
   | some avg =>
     if nc < 2 then throw .value
     multiclassCheck i t (some nc)
-    let r ← multiclassAuroc (colsOf i.rows nc) t.data avg
+    let r ← (Fams.multiclassAurocC nc avg).fn (i.rows, t.data)     -- typed functional (TE/Model/FamsCache.lean)
     pure (showAvg avg r)
 
 def fnMulticlassAuprc (a : Args) : Except Err String := do
@@ -140,7 +142,7 @@ def fnMulticlassAuprc (a : Args) : Except Err String := do
   | some avg =>
     if nc < 2 then throw .value
     multiclassCheck i t (some nc)
-    let r ← multiclassAuprc (colsOf i.rows nc) t.data avg
+    let r ← (Fams.multiclassAuprcC nc avg).fn (i.rows, t.data)
     pure (showAvg avg r)
 
 def fnMultilabelAuprc (a : Args) : Except Err String := do
@@ -152,13 +154,13 @@ def fnMultilabelAuprc (a : Args) : Except Err String := do
   | some avg =>
     if nl < 2 then throw .value
     multilabelCheck i t nl
-    let r ← multilabelAuprc ((colsOf i.rows nl).zip (colsOf t.rows nl)) avg
+    let r ← (Fams.multilabelAuprcC nl avg).fn (i.rows, t.rows)
     pure (showAvg avg r)
 
 def fnBinaryPrCurve (a : Args) : Except Err String := do
   let (i, t) ← iot a
   binaryPrCheck i t
-  let c ← binaryPrCurve i.data t.data
+  let c ← Fams.binaryPrCurveC.fn (i.data, t.data)
   pure (showPRCs [c])
 
 def fnMulticlassPrCurve (a : Args) : Except Err String := do
@@ -167,7 +169,7 @@ def fnMulticlassPrCurve (a : Args) : Except Err String := do
   let nc0 := if nc0.isNone && i.ndim == 2 then i.shape[1]? else nc0
   multiclassCheck i t nc0
   let nc := nc0.getD 0
-  let cs ← multiclassPrCurve (colsOf i.rows nc) t.data
+  let cs ← (Fams.multiclassPrCurveC (some nc)).fn (i.rows, t.data)
   pure (showPRCs cs)
 
 def fnMultilabelPrCurve (a : Args) : Except Err String := do
@@ -175,7 +177,7 @@ def fnMultilabelPrCurve (a : Args) : Except Err String := do
   if i.ndim != 2 then throw .value
   let nl := (← liftP (a.nat? "num_labels")).getD (i.shape[1]?.getD 0)
   multilabelCheck i t nl
-  let cs ← multilabelPrCurve ((colsOf i.rows nl).zip (colsOf t.rows nl))
+  let cs ← (Fams.multilabelPrCurveC nl).fn (i.rows, t.rows)
   pure (showPRCs cs)
 
 def fnBinaryRecallAtPrecision (a : Args) : Except Err String := do
@@ -183,7 +185,7 @@ def fnBinaryRecallAtPrecision (a : Args) : Except Err String := do
   let p ← liftP (a.rat "min_precision")
   binaryPrCheck i t
   minPrecisionCheck p
-  let r ← binaryRecallAtPrecision i.data t.data p
+  let r ← (Fams.binaryRecallAtPrecisionC p).fn (i.data, t.data)
   pure (showPairs [r])
 
 def fnMultilabelRecallAtPrecision (a : Args) : Except Err String := do
@@ -192,7 +194,7 @@ def fnMultilabelRecallAtPrecision (a : Args) : Except Err String := do
   let nl ← liftP (a.nat "num_labels")
   multilabelCheck i t nl
   minPrecisionCheck p
-  let rs ← multilabelRecallAtPrecision ((colsOf i.rows nl).zip (colsOf t.rows nl)) p
+  let rs ← (Fams.multilabelRecallAtPrecisionC p nl).fn (i.rows, t.rows)
   pure (showPairs rs)
 
 /- ---------- spec oracles (TE/Spec/Curve.lean; valid inputs only) ---------- -/
